@@ -171,7 +171,7 @@ func cmdCheck(args []string) {
 	}
 	work, _ := os.MkdirTemp("", "gvc")
 	defer os.RemoveAll(work)
-	cfg := &SolverCfg{WorkDir: work, Quick: 3 * time.Second, Full: 20 * time.Second, Parallel: 16}
+	cfg := &SolverCfg{WorkDir: work, Quick: 3 * time.Second, Full: 30 * time.Second, Parallel: 16}
 	if *tier == "thorough" {
 		cfg.Quick = 10 * time.Second
 		cfg.AllAgree = true
